@@ -69,6 +69,9 @@ def run_stage(ctx, st):
     if kind == "gotest":
         import tracestage
         return tracestage.stage_gotest(ctx, st)
+    if kind == "ind":   # inductive-invariant obligations (Apalache / TLAPS) and their TLC tie to the original module: lib/indstage.py
+        import indstage
+        return indstage.stage_ind(ctx, st)
     raise CannotDecide(f"unknown stage kind {kind}")
 
 
